@@ -936,6 +936,23 @@ func (p *Path) cloneVal(v Value) Value {
 			n.Bind[i] = p.cloneVal(b)
 		}
 		return n
+	case *ChanV:
+		if x.C == nil {
+			return x
+		}
+		if c, ok := p.extra["chanclone"].(map[*ChanObj]*ChanObj); ok {
+			if n, ok := c[x.C]; ok {
+				return &ChanV{C: n}
+			}
+		} else {
+			p.extra["chanclone"] = map[*ChanObj]*ChanObj{}
+		}
+		n := &ChanObj{Cap: x.C.Cap}
+		p.extra["chanclone"].(map[*ChanObj]*ChanObj)[x.C] = n
+		for _, e := range x.C.Q {
+			n.Q = append(n.Q, p.cloneVal(e))
+		}
+		return &ChanV{C: n}
 	case *MapV:
 		if x.M == nil {
 			return x
